@@ -555,13 +555,23 @@ func c27Check(c *kit.Case, in c27Input) {
 		var reopen func() (database.Database, error)
 		if p.name == "pebble" && hasReopen {
 			// a history that reopens the store runs pebble on disk (in the shard's scratch cwd)
-			dir, derr := os.MkdirTemp(".", "c27pebble")
-			if derr != nil {
-				c.Failf("[pebble] cannot create scratch dir: %v", derr)
+			// (an environment failure to create the scratch directory says nothing about the
+			// property: retried, then the history runs on the in-memory store and is counted)
+			var dir string
+			var derr error
+			for try := 0; try < 5; try++ {
+				if dir, derr = os.MkdirTemp(".", "c27pebble"); derr == nil {
+					break
+				}
 			}
-			defer os.RemoveAll(dir)
-			db, err = pebbledb.NewDatabase(dir, false)
-			reopen = func() (database.Database, error) { return pebbledb.NewDatabase(dir, false) }
+			if derr != nil {
+				c.Class("pebble_scratch_dir_unavailable_ran_in_memory")
+				db, err = p.open()
+			} else {
+				defer os.RemoveAll(dir)
+				db, err = pebbledb.NewDatabase(dir, false)
+				reopen = func() (database.Database, error) { return pebbledb.NewDatabase(dir, false) }
+			}
 		} else {
 			db, err = p.open()
 		}
